@@ -59,17 +59,8 @@ def _call_scenario(program, same):
     return snaps, A, B
 
 
-def run(ctx):
-    program = ctx.program
-    # R11.1 restore on every exit (same engine instance as C03's R03.4) ----------------------------------------------
-    ctx.rule("R11.1", "EvalFunc.call restores the caller's globals, locals, scope stack and context on every exit", floor=4)
-    ast_ctx = ObjV("ast_ctx", "AstEval")
-    init = {"global_sym_table": Sym(("init", "global_sym_table")), "sym_table": Sym(("init", "sym_table")),
-            "sym_table_stack": ListV([Sym(("init", "stack0"))]), "global_ctx": Sym(("init", "global_ctx"))}
-    _restore_rule(ctx, program, "R11.1", "eval.py::EvalFunc.call", "ast_ctx", "AstEval", list(init), init,
-                  {"ast_ctx": ast_ctx, "self": ObjV("self", "EvalFunc")}, what="EvalFunc.call")
-
-    ctx.rule("R11.1b", "the body of a function runs against the globals of its defining context whenever that context object differs from the evaluator's", floor=2)
+def defining_context_rule(ctx, program, rid):
+    """A function's body - and so every import, name lookup and module lookup made from it - runs against the context object that defined it."""
     unit = "eval.py::EvalFunc.call"
     snaps, A, B = _call_scenario(program, same=False)
     if not snaps:
@@ -80,7 +71,7 @@ def run(ctx):
         gst = d.get("global_sym_table")
         if d.get("global_ctx") != B or "get_global_sym_table" not in repr(gst) or "ctxB" not in repr(gst):
             bad = f"body evaluated with global_ctx={d.get('global_ctx')!r}, global_sym_table={gst!r}"
-    ctx.check(bad is None, "R11.1b", unit, "cross-context call switches to the defining context's globals",
+    ctx.check(bad is None, rid, unit, "cross-context call switches to the defining context's globals",
               msg=f"EvalFunc.call, evaluator in context A calling a function defined in context B (same file name, different context object): {bad}; "
               f"the function would read and write the caller's globals", key="switch on differing context objects", node=program.func(unit), rel="eval.py",
               sample={"snapshots": len(snaps)})
@@ -93,8 +84,23 @@ def run(ctx):
         st = d.get("sym_table_stack")
         if not (isinstance(st, ListV) and len(st.items) == 2 and st.items[1] == Sym(("object", "localsCaller"))):
             bad = f"scope stack {st!r}: the caller's locals must be pushed for closures/nonlocal resolution"
-    ctx.check(bad is None and snaps, "R11.1b", unit, "same-context call keeps globals and pushes the caller's scope",
+    ctx.check(bad is None and snaps, rid, unit, "same-context call keeps globals and pushes the caller's scope",
               msg=f"EvalFunc.call within one context: {bad}", key="same context call", node=program.func(unit), rel="eval.py")
+
+
+
+def run(ctx):
+    program = ctx.program
+    # R11.1 restore on every exit (same engine instance as C03's R03.4) ----------------------------------------------
+    ctx.rule("R11.1", "EvalFunc.call restores the caller's globals, locals, scope stack and context on every exit", floor=4)
+    ast_ctx = ObjV("ast_ctx", "AstEval")
+    init = {"global_sym_table": Sym(("init", "global_sym_table")), "sym_table": Sym(("init", "sym_table")),
+            "sym_table_stack": ListV([Sym(("init", "stack0"))]), "global_ctx": Sym(("init", "global_ctx"))}
+    _restore_rule(ctx, program, "R11.1", "eval.py::EvalFunc.call", "ast_ctx", "AstEval", list(init), init,
+                  {"ast_ctx": ast_ctx, "self": ObjV("self", "EvalFunc")}, what="EvalFunc.call")
+
+    ctx.rule("R11.1b", "the body of a function runs against the globals of its defining context whenever that context object differs from the evaluator's", floor=2)
+    defining_context_rule(ctx, program, "R11.1b")
 
     # R11.2 who may write -----------------------------------------------------------------------------------------------
     ctx.rule("R11.2", "an evaluator's global symbol table / context is written only at the reviewed sites", floor=6)
